@@ -39,6 +39,10 @@ struct C19Vis {
 				if constexpr(D == 1) { got = std::addressof(*it); } else { auto&& row = *it; auto rf = firsts_of(row); got = std::addressof(brk(row, rf)); }
 				if(got != want) violation(K + "iteration", "begin()+" + std::to_string(n) + " does not designate the " + std::to_string(n) + "-th leading position of the twin"); }
 			if(n != m.size[0]) violation(K + "iteration-count", "begin()..end() visits " + std::to_string(n) + " positions, twin size " + std::to_string(m.size[0])); }
+		op((std::string(opn) + "/front-back").c_str());  // positional accessors: first and last leading POSITION, whatever the first index is
+		{ std::vector<L> z0(std::size_t(D), 0), zl(std::size_t(D), 0); zl[0] = m.size[0] - 1; int const* wf = base + m.off[std::size_t(m.lin(z0))]; int const* wb = base + m.off[std::size_t(m.lin(zl))]; int const* gf; int const* gb;
+			if constexpr(D == 1) { gf = std::addressof(v.front()); gb = std::addressof(v.back()); } else { auto&& f = v.front(); auto&& bk = v.back(); gf = std::addressof(brk(f, firsts_of(f))); gb = std::addressof(brk(bk, firsts_of(bk))); }
+			if(gf != wf) violation(K + "front", "front() does not designate the first leading position of the twin"); if(gb != wb) violation(K + "back", "back() designates root offset " + std::to_string(gb - base) + ", the last leading position of the twin is at " + std::to_string(wb - base)); }
 		count("elements_compared", N); count("views_checked");
 	}
 
